@@ -394,8 +394,10 @@ class Gen(object):
         rng = self.rng
         o = self.o
         r = rng.random()
-        tot = 0.5 + o['p_neg'] + o['p_agg'] + o['p_prop']
+        tot = 0.5 + o['p_neg'] + o['p_agg'] + o['p_prop'] + o['p_impl']
         r *= tot
+        if o['p_impl'] and depth > 0 and r > tot - o['p_impl']:
+            return self.implication(env, depth)
         if r < 0.5:
             c = self.cmp(env, 1)
             return ('cmp', c[1], c[2], c[3])
@@ -426,6 +428,23 @@ class Gen(object):
         if len(b) > 1:
             self.labels.add('negation_of_conjunction')
         return ('neg', tuple(b), 0)
+
+    def implication(self, env, depth):
+        """(A => B): for every solution of A (locals allowed) B holds."""
+        rng = self.rng
+        inner = dict(env)
+        a = [self.call(inner)]
+        if rng.random() < 0.3:
+            c = self.cmp(inner, 1, allow_fcall=False)
+            a.append(('cmp', c[1], c[2], c[3]))
+        inner2 = dict(inner)
+        if rng.random() < 0.5:
+            b = [self.call(inner2)]
+        else:
+            c = self.cmp(inner2, 1, allow_fcall=False)
+            b = [('cmp', c[1], c[2], c[3])]
+        self.labels.add('implication')
+        return ('impl', tuple(a), tuple(b), 0)
 
     def sub_body(self, inner_env, depth):
         """Body of a combine/negation: binders (may introduce locals, may join with
